@@ -170,6 +170,61 @@ def record_balance(ctx, rid, fn, rel):
              path=[src(n)[:50].split('\n')[0] for n, _ in list(bad.values())[0] if not isinstance(n, str)][:12] if bad else None)
 
 
+
+def slack_weights(ctx, rid, fns):
+    """The slack register is sized (num_bits) and weighted (2**i / 1) by the same log_trick flag."""
+    n7 = 0
+    for fn in fns:
+        g = cfg_of(fn.node)
+        flag = 'log_trick'
+        for loop in [n for n in ast.walk(fn.node) if isinstance(n, ast.For)]:
+            nb = [c for c in calls_in(loop.iter, 'num_bits')]
+            if not nb:
+                continue
+            n7 += 1
+            c = nb[0]
+            farg = c.args[1] if len(c.args) > 1 else kwarg(c, 'log_trick')
+            okf = farg is not None and is_name(farg, flag) and flag in fn.all_params
+            ctx.inst(rid, fn, loop, okf,
+                     "num_bits receives the method's log_trick flag" if okf else
+                     "num_bits is called without the method's log_trick flag (got %s): the number of slack "
+                     "bits and their weights disagree" % (src(farg) if farg is not None else 'default'))
+            # weights in the loop body
+            facts = []
+            for t, pol, o in g.edge_dominators(loop):
+                facts += compare_atoms(t, pol)
+            ws = []
+            for n in ast.walk(loop):
+                if isinstance(n, ast.IfExp) and any(pow2_exponent(x) is not None for x in (n.body, n.orelse)):
+                    ws.append(canon(n))
+            if ws:
+                for w in ws:
+                    okw = src(w.test) == flag and pow2_exponent(w.body) is not None and const_num(w.orelse) == 1
+                    ctx.inst(rid, fn, w, okw,
+                             "weight 2**i under the flag, 1 otherwise" if okw else
+                             "slack weight `%s` is not selected by the same flag as the bit count" % src(w))
+                    # binary weights 2**i with i the loop index counting from 0: the register then covers every
+                    # value 0 .. 2**n - 1 that num_bits sized it for
+                    b_ = w.body
+                    iv = src(loop.target)
+                    expo = pow2_exponent(b_)
+                    from0 = isinstance(loop.iter, ast.Call) and is_name(loop.iter.func, 'range') and len(loop.iter.args) == 1
+                    oke = expo is not None and src(expo) == iv and from0
+                    ctx.inst(rid, fn, b_, oke,
+                             "weight of slack bit %s is 2**%s, %s = 0, 1, .." % (iv, iv, iv) if oke else
+                             "log-trick slack weight `%s` over `%s` is not 2**%s for %s = 0, 1, ..: some slack values "
+                             "between 0 and the bound cannot be represented, feasible assignments keep a positive penalty"
+                             % (src(b_), src(loop.iter)[:40], iv, iv))
+            else:
+                unary = ('falsy', flag) in facts
+                powuse = any(pow2_exponent(n) is not None for n in ast.walk(loop))
+                okw = unary and not powuse
+                ctx.inst(rid, fn, loop, okw,
+                         "unit weights under `not log_trick`" if okw else
+                         "slack weights are not selected by the log_trick flag")
+    if n7 < 3:
+        raise AnalysisError("slack_weights: fewer than 3 slack loops found (%d)" % n7)
+
 def rules(ctx):
     P, R = ctx.prog, ctx.res
     from .C14 import derived_fields
@@ -242,57 +297,7 @@ def rules(ctx):
         lam_zero_rule(ctx, 'R02.6', fn)
 
     # ---------------------------------------------------------------- R02.7
-    n7 = 0
-    for fn in list(meths.values()) + P.opt_funcs(['_pcbo._special_constraints_le_zero']):
-        g = cfg_of(fn.node)
-        flag = 'log_trick'
-        for loop in [n for n in ast.walk(fn.node) if isinstance(n, ast.For)]:
-            nb = [c for c in calls_in(loop.iter, 'num_bits')]
-            if not nb:
-                continue
-            n7 += 1
-            c = nb[0]
-            farg = c.args[1] if len(c.args) > 1 else kwarg(c, 'log_trick')
-            okf = farg is not None and is_name(farg, flag) and flag in fn.all_params
-            ctx.inst('R02.7', fn, loop, okf,
-                     "num_bits receives the method's log_trick flag" if okf else
-                     "num_bits is called without the method's log_trick flag (got %s): the number of slack "
-                     "bits and their weights disagree" % (src(farg) if farg is not None else 'default'))
-            # weights in the loop body
-            facts = []
-            for t, pol, o in g.edge_dominators(loop):
-                facts += compare_atoms(t, pol)
-            ws = []
-            for n in ast.walk(loop):
-                if isinstance(n, ast.IfExp) and any(pow2_exponent(x) is not None for x in (n.body, n.orelse)):
-                    ws.append(canon(n))
-            if ws:
-                for w in ws:
-                    okw = src(w.test) == flag and pow2_exponent(w.body) is not None and const_num(w.orelse) == 1
-                    ctx.inst('R02.7', fn, w, okw,
-                             "weight 2**i under the flag, 1 otherwise" if okw else
-                             "slack weight `%s` is not selected by the same flag as the bit count" % src(w))
-                    # binary weights 2**i with i the loop index counting from 0: the register then covers every
-                    # value 0 .. 2**n - 1 that num_bits sized it for
-                    b_ = w.body
-                    iv = src(loop.target)
-                    expo = pow2_exponent(b_)
-                    from0 = isinstance(loop.iter, ast.Call) and is_name(loop.iter.func, 'range') and len(loop.iter.args) == 1
-                    oke = expo is not None and src(expo) == iv and from0
-                    ctx.inst('R02.7', fn, b_, oke,
-                             "weight of slack bit %s is 2**%s, %s = 0, 1, .." % (iv, iv, iv) if oke else
-                             "log-trick slack weight `%s` over `%s` is not 2**%s for %s = 0, 1, ..: some slack values "
-                             "between 0 and the bound cannot be represented, feasible assignments keep a positive penalty"
-                             % (src(b_), src(loop.iter)[:40], iv, iv))
-            else:
-                unary = ('falsy', flag) in facts
-                powuse = any(pow2_exponent(n) is not None for n in ast.walk(loop))
-                okw = unary and not powuse
-                ctx.inst('R02.7', fn, loop, okw,
-                         "unit weights under `not log_trick`" if okw else
-                         "slack weights are not selected by the log_trick flag")
-    if n7 < 3:
-        raise AnalysisError("R02.7: fewer than 3 slack loops found (%d)" % n7)
+    slack_weights(ctx, 'R02.7', list(meths.values()) + P.opt_funcs(['_pcbo._special_constraints_le_zero']))
 
     # ---------------------------------------------------------------- R02.8
     for rel, fn in meths.items():
